@@ -1,13 +1,325 @@
 import Mdns.Lemmas.Sched
-import Mdns.Model.Cache
+import Mdns.Lemmas.ClientHost
+import Mdns.Props.C03
 /-
   C17  Hostname resolution: right addresses, case-insensitive, ends on time.
 
-  Scheduler part on `Mdns/Model/Sched.lean` (exact on responder-free histories);
-  the address events are decided by the monitor `ok_C17` on real histories from the records
-  that were delivered (independent of the daemon's cache).
+  Model: `Mdns/Model/Client.lean` (one loop iteration `Client.iter`; compared with the real
+  daemon on every run: queries, events with payload, metrics, wake-up).  The theorems of the
+  first part hold for ANY sequence of iterations from the start of the daemon (any times,
+  packets, commands).  The last section keeps the older statements about the scheduler
+  fragment `Mdns/Model/Sched.lean`.
 -/
 namespace Mdns.Props.C17
+
+section ClientModel
+open Mdns Mdns.Rec Mdns.Cache Mdns.Client
+
+/-- all commands of a history of iterations -/
+def cmdsOf (h : List (Nat × List Packet × List Command)) : List Command := h.flatMap (·.2.2)
+
+/-- the time of the last iteration of a history (`T` if it has none) -/
+def lastTime : Nat → List (Nat × List Packet × List Command) → Nat
+  | T, [] => T
+  | _, (now, _, _) :: rest => lastTime now rest
+
+theorem histOf_append : ∀ (a b : List (Nat × List Packet × List Command)) (s : State),
+    C03.histOf s (a ++ b) = C03.histOf s a ++ C03.histOf (run s a).1 b
+  | [], _, _ => by simp [C03.histOf, run]
+  | (now, pkts, cmds) :: a, b, s => by
+    simp only [List.cons_append, C03.histOf, run]
+    rw [histOf_append a b]
+    simp only [List.append_assoc]
+
+theorem cmdsOf_append (a b : List (Nat × List Packet × List Command)) : cmdsOf (a ++ b) = cmdsOf a ++ cmdsOf b := by
+  simp [cmdsOf]
+
+/-! ### invariants of whole histories -/
+
+/-- after a history every cached entry is justified by a delivered record -/
+theorem run_prov (pre : List (Nat × List Packet × List Command)) (t0 : Nat) (intfs : List Intf) :
+    CacheProv (C03.histOf (init t0 intfs) pre) (run (init t0 intfs) pre).1.cache := by
+  simpa using (C03.resolved_sound_run pre [] (init t0 intfs) (cacheProv_empty [])).1
+
+/-- after a history no cached entry had expired at the time of its last iteration -/
+theorem run_live : ∀ (pre : List (Nat × List Packet × List Command)) (s : State) (T : Nat),
+    CacheAll (fun e => T < e.record.expires) s.cache →
+    CacheAll (fun e => lastTime T pre < e.record.expires) (run s pre).1.cache
+  | [], _, _, h => h
+  | (now, pkts, cmds) :: rest, s, _, _ => by
+    simp only [run, lastTime]
+    exact run_live rest _ now (iter_allLive s now pkts cmds).1
+
+/-- after a history every open hostname search stems from a `resolve_hostname` command of it -/
+theorem run_resolversFrom : ∀ (pre : List (Nat × List Packet × List Command)) (s : State) (all0 : List Command),
+    ResolversFrom all0 s.resolvers → ResolversFrom (all0 ++ cmdsOf pre) (run s pre).1.resolvers
+  | [], _, _, h => by simpa [cmdsOf, run] using h
+  | (now, pkts, cmds) :: rest, s, all0, h => by
+    have h1 : ResolversFrom (all0 ++ cmds) (iter s now pkts cmds).1.resolvers :=
+      resolversFrom_iter _ s now pkts cmds (fun c hc => List.mem_append_right _ hc)
+        (h.mono fun c hc => List.mem_append_left _ hc)
+    have h2 := run_resolversFrom rest _ _ h1
+    simpa [run, cmdsOf, List.append_assoc] using h2
+
+/-! ### (a) `AddressesFound` lists only addresses that were received for that name -/
+
+/-- What an `AddressesFound(host, addrs)` on channel `ch` says, in terms of the commands given
+    and the records DELIVERED to the daemon (`T` = time of the previous iteration, `now` = time of
+    this one):
+    * a `resolve_hostname` command with this channel asked for a name that equals `host` up to
+      letter case;
+    * every listed address comes from a delivered A / AAAA record whose owner name is `host`
+      (byte for byte: the event is per owner name as received), with that address, tagged with
+      the interface it arrived on, and whose lifetime (delivery time + TTL) had not ended at the
+      previous iteration, or does not end before `now`. -/
+structure HFoundFrom (hist : List Delivery) (cmds : List Command) (T now ch : Nat) (host : BList)
+    (addrs : List AddrItem) : Prop where
+  search : ∃ h t, Command.resolveHost h ch t ∈ cmds ∧ lower h = lower host
+  addr : ∀ a ∈ addrs, ∃ d ∈ hist, d.wire.name = host ∧ (d.wire.ty = 1 ∨ d.wire.ty = 28) ∧
+    (d.wire.rdata = .a a.1 ∨ d.wire.rdata = .aaaa a.1) ∧ d.ifName = a.2.1 ∧ d.ifIdx = a.2.2 ∧
+    (T < d.time + 1000 * d.wire.ttl ∨ now ≤ d.time + 1000 * d.wire.ttl)
+
+/-- a cached address entry with its justification, in terms of the delivery -/
+theorem addr_entry_delivered (hist : List Delivery) (c : Cache) (hc : CacheProv hist c) (key : BList) (e : Entry)
+    (he : e ∈ (c.addr.get key).getD []) (a : AddrItem) (ha : addrItemOf e = some a) :
+    lower e.record.name = key ∧
+    ∃ d ∈ hist, d.wire.name = e.record.name ∧ (d.wire.ty = 1 ∨ d.wire.ty = 28) ∧
+      (d.wire.rdata = .a a.1 ∨ d.wire.rdata = .aaaa a.1) ∧ d.ifName = a.2.1 ∧ d.ifIdx = a.2.2 ∧
+      e.record.expires ≤ d.time + 1000 * d.wire.ttl := by
+  obtain ⟨q, hq, hqk, hqe⟩ := mem_getD _ _ e he
+  obtain ⟨⟨d, hd, j⟩, hf⟩ := hc .addr q hq e hqe
+  refine ⟨by rw [← hqk]; exact hf.2, d, hd, j.1.symm, ?_, ?_⟩
+  · rw [← j.2.1]; exact C03.slot_addr hf.1
+  · have h5 := j.2.2.2.2.1
+    rw [mem_addrItemOf ha] at h5
+    have h8 := j.2.2.2.2.2.2.2
+    cases hw : d.wire.rdata <;> simp [ofWire, Record.new, hw] at h5
+    · obtain ⟨h1, h2, h3⟩ := h5
+      exact ⟨Or.inl (by rw [h1]), h2.symm, h3.symm, h8⟩
+    · obtain ⟨h1, h2, h3⟩ := h5
+      exact ⟨Or.inr (by rw [h1]), h2.symm, h3.symm, h8⟩
+
+/-- a group of `get_addresses_for_host(name)` on a justified cache whose entries respect the
+    expiry floor -/
+theorem group_sound (hist : List Delivery) (T now : Nat) (c : Cache) (hc : CacheProv hist c)
+    (hf : CacheAll (Floor T now) c) (name host : BList) (addrs : List AddrItem)
+    (hm : (host, addrs) ∈ addressesForHost c name) :
+    lower host = lower name ∧
+    ∀ a ∈ addrs, ∃ d ∈ hist, d.wire.name = host ∧ (d.wire.ty = 1 ∨ d.wire.ty = 28) ∧
+      (d.wire.rdata = .a a.1 ∨ d.wire.rdata = .aaaa a.1) ∧ d.ifName = a.2.1 ∧ d.ifIdx = a.2.2 ∧
+      (T < d.time + 1000 * d.wire.ttl ∨ now ≤ d.time + 1000 * d.wire.ttl) := by
+  obtain ⟨⟨e0, he0, hn0⟩, hiff⟩ := mem_addressesForHost c name host addrs hm
+  refine ⟨?_, ?_⟩
+  · obtain ⟨q, hq, hqk, hqe⟩ := mem_getD _ _ e0 he0
+    have hf0 := (hc .addr q hq e0 hqe).2
+    rw [← hn0, ← hqk]
+    exact hf0.2
+  · intro a ha
+    obtain ⟨e, he, hn, hi⟩ := (hiff a).mp ha
+    obtain ⟨_, d, hd, h1, h2, h3, h4, h5, h6⟩ := addr_entry_delivered hist c hc _ e he a hi
+    refine ⟨d, hd, h1.trans hn, h2, h3, h4, h5, ?_⟩
+    obtain ⟨q, hq, _, hqe⟩ := mem_getD _ _ e he
+    rcases hf .addr q hq e hqe with h | h
+    · left; omega
+    · right; omega
+
+/-- **hfound_sound (one iteration).**  From a cache justified by the deliveries `hist` whose
+    entries had not expired at `T`, and a resolver table that stems from the commands `cmds0`:
+    every `AddressesFound` of the iteration is as `HFoundFrom` says. -/
+theorem hfound_sound_iter (hist : List Delivery) (cmds0 : List Command) (T : Nat) (s : State) (now : Nat)
+    (pkts : List Packet) (cmds : List Command) (hc : CacheProv hist s.cache)
+    (hl : CacheAll (fun e => T < e.record.expires) s.cache) (hr : ResolversFrom cmds0 s.resolvers)
+    (ch : Nat) (host : BList) (addrs : List AddrItem)
+    (hm : Out.event ch (.hfound host addrs) ∈ (iter s now pkts cmds).2) :
+    HFoundFrom (hist ++ deliveries s now pkts) (cmds0 ++ cmds) T now ch host addrs := by
+  have hfl : CacheAll (Floor T now) s.cache := hl.mono fun e he => Or.inl he
+  rcases hfound_iter s now pkts cmds ch host addrs hm with ⟨pre, p, post, name, hp, hch, hg⟩ | ⟨pre, h0, t, post, hp, hg⟩
+  · -- assembled in `handle_response`
+    have hprov := (ok_ingress now (pre ++ [p]) hist s hc).1
+    have hfloor := floor_ingress T now (pre ++ [p]) s hfl
+    obtain ⟨hlow, haddr⟩ := group_sound _ T now _ hprov hfloor name host addrs hg
+    obtain ⟨q, hq, hqk, hqc⟩ := resolverChan_mem s name ch hch
+    obtain ⟨h1, t1, hcmd, hk⟩ := hr q hq
+    refine ⟨⟨h1, t1, List.mem_append_left _ (hqc ▸ hcmd), ?_⟩, ?_⟩
+    · rw [hlow, ← hqk, hk]
+    · intro a ha
+      obtain ⟨d, hd, rest⟩ := haddr a ha
+      refine ⟨d, ?_, rest⟩
+      rcases List.mem_append.mp hd with hd | hd
+      · exact List.mem_append_left _ hd
+      · exact List.mem_append_right _ (hp ▸ deliveries_prefix_sub s now pre p post d hd)
+  · -- the cache replay of a `resolve_hostname` command
+    have hL := lowClosed_cacheProv (hist ++ deliveries s now pkts)
+    have hprov := (ok_runCommands _ hL now pre _ (prov_preCommands hist s now pkts hc)).1
+    have hfloor := floor_runCommands T now pre _ (floor_preCommands T now s pkts hfl)
+    obtain ⟨hlow, haddr⟩ := group_sound _ T now _ hprov hfloor h0 host addrs hg
+    refine ⟨⟨h0, t, List.mem_append_right _ (by rw [hp]; simp), hlow.symm⟩, haddr⟩
+
+/-- **hfound_sound (whole histories).**  Start the daemon and run ANY history `pre`, then one
+    more iteration: every `AddressesFound(host, addrs)` it emits on a channel `ch` answers a
+    `resolve_hostname` call made on `ch` for that name (letter case ignored), and every listed
+    address comes from a delivered A / AAAA record of exactly that owner name, with the
+    interface it was received on, whose lifetime had not ended at the previous iteration (or
+    does not end before this one). -/
+theorem hfound_sound (t0 : Nat) (intfs : List Intf) (pre : List (Nat × List Packet × List Command))
+    (now : Nat) (pkts : List Packet) (cmds : List Command) (ch : Nat) (host : BList) (addrs : List AddrItem)
+    (hm : Out.event ch (.hfound host addrs) ∈ (iter (run (init t0 intfs) pre).1 now pkts cmds).2) :
+    HFoundFrom (C03.histOf (init t0 intfs) (pre ++ [(now, pkts, cmds)])) (cmdsOf (pre ++ [(now, pkts, cmds)]))
+      (lastTime 0 pre) now ch host addrs := by
+  have h := hfound_sound_iter _ (cmdsOf pre) (lastTime 0 pre) _ now pkts cmds (run_prov pre t0 intfs)
+    (run_live pre (init t0 intfs) 0 (cacheAll_empty _))
+    (by simpa using run_resolversFrom pre (init t0 intfs) [] (fun q hq => by cases hq)) ch host addrs hm
+  rw [histOf_append, cmdsOf_append]
+  simpa [C03.histOf, cmdsOf] using h
+
+/-- the event lists ALL addresses cached under that owner name at that moment: a group of
+    `get_addresses_for_host` is exactly the set of addresses (with interface) of the entries
+    filed under the lower-cased name whose owner name is the group's (cache-level contract) -/
+theorem hfound_lists_all (c : Cache) (name host : BList) (addrs : List AddrItem)
+    (h : (host, addrs) ∈ addressesForHost c name) (a : AddrItem) :
+    a ∈ addrs ↔ ∃ e ∈ (c.addr.get (lower name)).getD [], e.record.name = host ∧ addrItemOf e = some a :=
+  (mem_addressesForHost c name host addrs h).2 a
+
+/-- C17, first clause, read with "unexpired at the instant of the event": every address of an
+    `AddressesFound` at `now` comes from a delivered record whose lifetime ends after `now`. -/
+def hfound_unexpired_full : Prop :=
+  ∀ (t0 : Nat) (intfs : List Intf) (pre : List (Nat × List Packet × List Command)) (now : Nat) (pkts : List Packet)
+    (cmds : List Command) (ch : Nat) (host : BList) (addrs : List AddrItem),
+    Out.event ch (.hfound host addrs) ∈ (iter (run (init t0 intfs) pre).1 now pkts cmds).2 →
+    ∀ a ∈ addrs, ∃ d ∈ C03.histOf (init t0 intfs) (pre ++ [(now, pkts, cmds)]),
+      (d.wire.rdata = .a a.1 ∨ d.wire.rdata = .aaaa a.1) ∧ now < d.time + 1000 * d.wire.ttl
+
+/-! witness: an address with TTL 1 s is delivered at 1500; the next iteration comes at 5000 (a
+    late loop iteration) and reads another address of the host.  `handle_response` runs before
+    the eviction of that iteration and `get_addresses_for_host` does not look at expiry times:
+    the event lists the address that ran out at 2500 (it is reported removed at the end of the
+    same iteration). -/
+
+def hostH : BList := [0x48, 0x2e]              -- "H."
+def hostLower : BList := [0x68, 0x2e]          -- "h."
+
+def addrPkt (name : BList) (ttl : Nat) (ip : BList) : Packet :=
+  { ifIdx := 2, v4 := true,
+    msg := { id := 0, flags := 0x8400, questions := [], answers := [C03.wrec name 1 ttl (.a ip)],
+             authorities := [], additionals := [] } }
+
+def lateHistory : List (Nat × List Packet × List Command) :=
+  [(1000, [], [.resolveHost hostH 7 none]), (1500, [addrPkt hostLower 1 [10, 0, 0, 1]], [])]
+
+theorem late_witness :
+    ((iter (run (init 1000 [C03.eth0]) lateHistory).1 5000 [addrPkt hostLower 120 [10, 0, 0, 2]] []).2.filter
+        fun o => match o with | .event _ (.hfound ..) => true | .event _ (.hremoved ..) => true | _ => false) =
+      [.event 7 (.hfound hostLower [([10, 0, 0, 2], [0x65], 2), ([10, 0, 0, 1], [0x65], 2)]),
+       .event 7 (.hremoved hostLower [([10, 0, 0, 1], [0x65], 2)])] := by decide
+
+/-- `hfound_unexpired_full` does not hold of the model: on a late iteration an address whose
+    record ran out is still listed (witness `lateHistory`).  `hfound_sound` is what holds
+    without a timeliness assumption; `Props.C12` shows that an iteration that is not later than
+    the requested wake-up finds no entry that ran out before `now`. -/
+theorem hfound_unexpired_full_false : ¬ hfound_unexpired_full := by
+  intro h
+  have hm : Out.event 7 (.hfound hostLower [([10, 0, 0, 2], [0x65], 2), ([10, 0, 0, 1], [0x65], 2)]) ∈
+      (iter (run (init 1000 [C03.eth0]) lateHistory).1 5000 [addrPkt hostLower 120 [10, 0, 0, 2]] []).2 := by
+    decide
+  obtain ⟨d, hd, hr, hl⟩ := h 1000 [C03.eth0] lateHistory 5000 _ [] 7 hostLower _ hm ([10, 0, 0, 1], [0x65], 2)
+    (by simp)
+  have hall : (C03.histOf (init 1000 [C03.eth0]) (lateHistory ++ [(5000, [addrPkt hostLower 120 [10, 0, 0, 2]], [])])).all
+      (fun d => !((d.wire.rdata == .a [10, 0, 0, 1] || d.wire.rdata == .aaaa [10, 0, 0, 1]) &&
+        decide (5000 < d.time + 1000 * d.wire.ttl))) = true := by decide
+  have hb := List.all_eq_true.mp hall d hd
+  rcases hr with hr | hr <;> simp [hr, hl] at hb
+
+/-! ### (b) `AddressesRemoved` only for addresses whose entries ran out in that iteration -/
+
+/-- What an `AddressesRemoved(host, addrs)` on `ch` says (`T` = time of the previous iteration):
+    a `resolve_hostname` command with this channel asked for that name (letter case ignored);
+    the list is not empty; and every listed address is that of a cached copy of a delivered
+    A / AAAA record of exactly that owner name, on that interface, whose expiry instant `x`
+    - never later than the record's lifetime allows; earlier after a goodbye, a cache-flush or
+    a `verify` - lies in this iteration: `x ≤ now`, and `T < x` or `x = now`. -/
+structure HRemovedFrom (hist : List Delivery) (cmds : List Command) (T now ch : Nat) (host : BList)
+    (addrs : List AddrItem) : Prop where
+  search : ∃ h t, Command.resolveHost h ch t ∈ cmds ∧ lower h = lower host
+  ne : addrs ≠ []
+  addr : ∀ a ∈ addrs, ∃ d ∈ hist, d.wire.name = host ∧ (d.wire.ty = 1 ∨ d.wire.ty = 28) ∧
+    (d.wire.rdata = .a a.1 ∨ d.wire.rdata = .aaaa a.1) ∧ d.ifName = a.2.1 ∧ d.ifIdx = a.2.2 ∧
+    ∃ x, x ≤ d.time + 1000 * d.wire.ttl ∧ x ≤ now ∧ (T < x ∨ now ≤ x)
+
+theorem evictServicesPhase_addr (s : State) (now : Nat) : (evictServicesPhase s now).1.cache.addr = s.cache.addr := rfl
+
+theorem evictServicesPhase_resolvers (s : State) (now : Nat) : (evictServicesPhase s now).1.resolvers = s.resolvers := rfl
+
+theorem preEvict_resolvers (s : State) (now : Nat) (pkts : List Packet) (cmds : List Command) :
+    (preEvict s now pkts cmds).resolvers = (iter s now pkts cmds).1.resolvers := by
+  rw [iter_resolvers]
+  simp only [preEvict, refreshResolvers, refreshActive, addTimers_resolvers, rerunPhase, runReruns_resolvers]
+
+/-- **hremoved_sound (one iteration)** -/
+theorem hremoved_sound_iter (hist : List Delivery) (cmds0 : List Command) (T : Nat) (s : State) (now : Nat)
+    (pkts : List Packet) (cmds : List Command) (hc : CacheProv hist s.cache)
+    (hl : CacheAll (fun e => T < e.record.expires) s.cache) (hr : ResolversFrom cmds0 s.resolvers)
+    (ch : Nat) (host : BList) (addrs : List AddrItem)
+    (hm : Out.event ch (.hremoved host addrs) ∈ (iter s now pkts cmds).2) :
+    HRemovedFrom (hist ++ deliveries s now pkts) (cmds0 ++ cmds) T now ch host addrs := by
+  have hfl : CacheAll (Floor T now) s.cache := hl.mono fun e he => Or.inl he
+  obtain ⟨hch, hne, hiff⟩ := hremoved_evictAddrPhase _ now ch host addrs (hremoved_iter s now pkts cmds ch host addrs hm)
+  have hprov := prov_preEvict hist s now pkts cmds hc
+  have hfloor := floor_preEvict T now s pkts cmds hfl
+  have hres : ResolversFrom (cmds0 ++ cmds) (iter s now pkts cmds).1.resolvers :=
+    resolversFrom_iter _ s now pkts cmds (fun c hc => List.mem_append_right _ hc)
+      (hr.mono fun c hc => List.mem_append_left _ hc)
+  have hentry : ∀ a ∈ addrs, ∃ p ∈ (preEvict s now pkts cmds).cache.addr, ∃ e ∈ p.2, e.record.expires ≤ now ∧
+      e.record.name = host ∧ e.record.rdata = .addr a.1 a.2.1 a.2.2 := by
+    intro a ha
+    exact (hiff a).mp ha
+  refine ⟨?_, hne, ?_⟩
+  · obtain ⟨q, hq, hqk, hqc⟩ := resolverChan_mem _ host ch hch
+    rw [evictServicesPhase_resolvers, preEvict_resolvers] at hq
+    obtain ⟨h1, t1, hcmd, hk⟩ := hres q hq
+    exact ⟨h1, t1, hqc ▸ hcmd, by rw [← hk, hqk]⟩
+  · intro a ha
+    obtain ⟨p, hp, e, he, hx, hn, hrd⟩ := hentry a ha
+    obtain ⟨⟨d, hd, j⟩, hf⟩ := hprov .addr p hp e he
+    have h8 := j.2.2.2.2.2.2.2
+    have hty : d.wire.ty = 1 ∨ d.wire.ty = 28 := by rw [← j.2.1]; exact C03.slot_addr hf.1
+    have h5 := j.2.2.2.2.1
+    rw [hrd] at h5
+    have hfl := hfloor .addr p hp e he
+    cases hw : d.wire.rdata <;> simp [ofWire, Record.new, hw] at h5
+    · obtain ⟨h1, h2, h3⟩ := h5
+      exact ⟨d, hd, j.1.symm.trans hn, hty, Or.inl (by rw [h1]; exact hw), h2.symm, h3.symm, e.record.expires, h8, hx, hfl⟩
+    · obtain ⟨h1, h2, h3⟩ := h5
+      exact ⟨d, hd, j.1.symm.trans hn, hty, Or.inr (by rw [h1]; exact hw), h2.symm, h3.symm, e.record.expires, h8, hx, hfl⟩
+
+/-- **hremoved_sound (whole histories).**  Start the daemon and run ANY history `pre`, then one
+    more iteration: every `AddressesRemoved` it emits is as `HRemovedFrom` says - for a searched
+    name, never empty, and only addresses whose cached record ran out (by TTL, goodbye, cache
+    flush or `verify`) in this very iteration. -/
+theorem hremoved_sound (t0 : Nat) (intfs : List Intf) (pre : List (Nat × List Packet × List Command))
+    (now : Nat) (pkts : List Packet) (cmds : List Command) (ch : Nat) (host : BList) (addrs : List AddrItem)
+    (hm : Out.event ch (.hremoved host addrs) ∈ (iter (run (init t0 intfs) pre).1 now pkts cmds).2) :
+    HRemovedFrom (C03.histOf (init t0 intfs) (pre ++ [(now, pkts, cmds)])) (cmdsOf (pre ++ [(now, pkts, cmds)]))
+      (lastTime 0 pre) now ch host addrs := by
+  have h := hremoved_sound_iter _ (cmdsOf pre) (lastTime 0 pre) _ now pkts cmds (run_prov pre t0 intfs)
+    (run_live pre (init t0 intfs) 0 (cacheAll_empty _))
+    (by simpa using run_resolversFrom pre (init t0 intfs) [] (fun q hq => by cases hq)) ch host addrs hm
+  rw [histOf_append, cmdsOf_append]
+  simpa [C03.histOf, cmdsOf] using h
+
+/-- ... and exactly those: the eviction step reports every address entry of that owner name that
+    has run out (`expires ≤ now`) when the name is being resolved (cache-level contract), and
+    after the iteration no entry with `expires ≤ now` is left (`Client.iter_allLive`). -/
+theorem hremoved_exact (s : State) (now : Nat) (ch : Nat) (host : BList) (addrs : List AddrItem)
+    (h : Out.event ch (.hremoved host addrs) ∈ (evictAddrPhase s now).2) (a : AddrItem) :
+    a ∈ addrs ↔ ∃ p ∈ s.cache.addr, ∃ e ∈ p.2, e.record.expires ≤ now ∧ e.record.name = host ∧
+      e.record.rdata = .addr a.1 a.2.1 a.2.2 :=
+  (hremoved_evictAddrPhase s now ch host addrs h).2.2 a
+
+end ClientModel
+
+/-! ### scheduler fragment (`Mdns/Model/Sched.lean`, exact on responder-free histories) -/
+
+section SchedFragment
 open Mdns Mdns.Sched
 
 /-- the search is keyed by the lower-cased host name: starting, stopping and the time-out
@@ -58,5 +370,7 @@ theorem entries_case_insensitive (c : Cache.Cache) (n1 n2 : BList) (h : lower n1
   simp [Cache.entriesFor, h]
 
 example : (execCommand (init 0) 0 (.resolveHost [0x48] 1 (some 500))).1.reruns = [] := by decide
+
+end SchedFragment
 
 end Mdns.Props.C17
